@@ -21,6 +21,11 @@ echo "[3] demo with mutant"
 if ( eval "$demo_cmd" ) >/tmp/confirm_mut.log 2>&1; then echo "    demo PASSES with mutant -> reject"; git checkout -q -- .; rm -rf seeddemo; exit 1; else echo "    demo FAILS with mutant (good)"; fi
 mv seeddemo /var/tmp/seeddemo.$$ 
 echo "[4] pinned suite with mutant"
+if grep -q "generator/templates\|generator/routes" "$src/patch.diff"; then
+  # the e2e suite compiles the committed routers and regenerates them while running: run it once first so
+  # that the full run below is built from routers generated WITH the change
+  go test -vet=off -count=1 -timeout 25m ./e2e/... >/dev/null 2>&1
+fi
 fails=$(go test -vet=off -count=1 -timeout 25m ./... 2>&1 | grep -E "^FAIL\s" | awk '{print $2}' | sort | tr '\n' ' ')
 echo "    failing packages: $fails"
 git checkout -q -- . ; rm -rf /var/tmp/seeddemo.$$
